@@ -27,10 +27,35 @@ def run(res, work, tier, seed):
     res.evaluations += meta["evals"]
     res.distinct += meta["distinct"]
     res.samples += meta["samples"][:4]
+    concurrent(res, work, tier, seed)
     res.rule = ("seeded random histories of %s operations on a real test scope and a random tree of 3 derived scopes (SubScope / Tagged incl. an empty tag value, three root "
                 "prefixes, with and without root tags, 1-3 registry shards): counter increments (incl. negative, zero), gauge updates (incl. +Inf, subnormal, MaxFloat64), "
                 "timer records (incl. Min/MaxInt64), value and duration histograms with unsorted / duplicated bounds and samples on the bounds, Close of sub-scopes, snapshots at "
                 "arbitrary points; every snapshot is compared by TLC with the model state, an earlier snapshot is re-read after later recording, and the harness writes "
-                "into the maps, tag maps and slices of a snapshot before taking the next one. Distinct by operation history." % ("40" if big else "25"))
+                "into the maps, tag maps and slices of a snapshot before taking the next one. Plus snapshots taken by two goroutines while 2-4 others record (a shared counter, per-goroutine "
+                "counters, gauges, timers, histograms on the root and a tagged scope): per metric, what had returned when the snapshot was called <= value <= what had been called when it "
+                "returned, timer values exactly 1..n in order. Distinct by operation history." % ("40" if big else "25"))
     res.assumptions += ["snapshot entries are abstracted to name{sorted tags}; the map key of every entry is additionally compared with KeyForPrefixedStringMap(name, tags)",
                         "names and tags here contain no key-format delimiters (identities that collide through them are the known finding of C05)"]
+
+
+def concurrent(res, work, tier, seed):
+    """'also concurrently with recording': SnapshotWindow.tla + the real test scope under free-running goroutines"""
+    import os
+    vlib.mc_expect_ok(work, "SnapshotWindow.tla", "SnapshotWindow.cfg", "SnapshotWindow: a snapshot (one read per counter, any order) against two recorders (call / add / return)", res, timeout=600)
+    c = vlib.write_cfg(work, "sw_w.cfg", "SnapshotWindow.cfg", {"WeakSnapshotReadsReportedValue": "TRUE"})
+    vlib.mc_expect_violation(work, "SnapshotWindow.tla", c, "WindowBound", "WeakSnapshotReadsReportedValue", res, timeout=300)
+    out = os.path.join(work, "c11conc")
+    os.makedirs(out)
+    vlib.stage_specs(out)
+    vlib.run_vh(["c11conc", "-out", out, "-seed", seed, "-tier", tier], timeout=2400)
+    meta = vlib.read_meta(out)
+    trace = os.path.join(out, "trace.ndjson")
+    fails, r = vlib.tlc_trace(out, "SnapshotWindowTrace.tla", "SnapshotWindowTrace.cfg", trace, meta["events"], timeout=3000)
+    if r["violated"] or not r["consumed"]:
+        raise vlib.Infra("SnapshotWindowTrace did not consume the trace: %s\n%s" % (r["violated"], r["out"][-2000:]))
+    res.add_trace_run("SnapshotWindowTrace", r, meta["cases"], meta["events"])
+    res.states += r["distinct"]; res.transitions += r["generated"]
+    lines = vlib.read_lines(trace)
+    res.judge_fails(fails, lines, lambda ln: dict(failing_line=ln, snapshot=__import__("json").loads(lines[max(ln, 1) - 1])))
+    res.evaluations += meta["evals"]
